@@ -36,6 +36,7 @@ EXPLANATION += (' R-C18-7: the endurance-limit likelihood reads only the infinit
 EXPLANATION += (' R-C18-6: no load or cycle quantity is compared with a non-zero constant in the analysis modules (unit dependence; built-in positive example).')
 EXPLANATION += (' R-C18-2 also requires the reported transition to be the midpoint of the lowest finite-zone load and the highest run-out load. R-C18-4 (applied to the load unit and, likewise, to the cycle unit: cycles, ND): values that carry the unit of the load (load column, finite/infinite transition, SD, ...; interprocedural typing) meet numeric constants only as comparisons with zero - a non-zero threshold or clamp makes the result depend on the load unit. R-C18-5: no analysis function writes into a caller-provided argument and no mutable default argument is ever written (effect analysis through closures).')
 EXPLANATION += (" R-C18-4 also treats rounding of a load- or cycle-typed value to a fixed number of digits or to whole numbers (round, np.round, floor, astype(int)) as a comparison with a fixed grid. R-C18-2 inlines the locals of the zone split and reports a zone selected by index labels (index.isin, drop, difference) instead of by the load of each test.")
+EXPLANATION += (' R-C18-8: every stats.linregress call of the analysis modules is preceded by a test of the spread of its regressor (np.ptp, unique / nunique, max together with min) in the same function or in every entry point that reaches it: exact Basquin data have zero spread after the pearl-chain shift and a regression over coinciding abscissae is 0/0.')
 ASSUMPTIONS = [
     "scipy.stats.linregress and sums are invariant under a common permutation of their paired arguments",
     "pandas groupby sorts group keys by default; np.unique and the 1-D set operations return sorted arrays",
@@ -52,6 +53,106 @@ def run(ctx):
     ctx.attempt(_r5)
     ctx.attempt(_r6)
     ctx.attempt(_r7)
+    ctx.attempt(_r8)
+
+
+SPREAD_FUNCS = ("np.ptp", "np.unique", "np.var", "np.std")
+SPREAD_METHODS = ("unique", "nunique", "ptp", "var", "std")
+
+
+def unguarded_regressions(fn_node):
+    """stats.linregress(x, y) calls of a function whose regressor x is not subject to a spread test in the same function:
+    a comparison that mentions np.ptp / unique / nunique / var / std of x (x through its single-definition locals and np.log10),
+    or x.max() together with x.min()"""
+    def norm_root(e):
+        e = inline_single_defs(fn_node, e)
+        for _ in range(6):
+            if isinstance(e, ast.Call) and call_name(e) in ("np.log10", "np.log", "np.asarray", "np.array", "np.sort") and e.args:
+                e = e.args[0]
+            elif isinstance(e, ast.Call) and isinstance(e.func, ast.Attribute) and e.func.attr in ("to_numpy", "astype", "copy"):
+                e = e.func.value
+            elif isinstance(e, ast.Attribute) and e.attr == "values":
+                e = e.value
+            else:
+                break
+        return norm_text(e)
+    out = []
+    tests = [n for n in ast.walk(fn_node) if isinstance(n, ast.Compare)]
+    for c in ast.walk(fn_node):
+        if not (isinstance(c, ast.Call) and (call_name(c) or "").endswith("linregress") and c.args):
+            continue
+        x = norm_root(c.args[0])
+        ok = False
+        for t in tests:
+            for m in ast.walk(t):
+                if isinstance(m, ast.Call) and call_name(m) in SPREAD_FUNCS and m.args and norm_root(m.args[0]) == x:
+                    ok = True
+                elif isinstance(m, ast.Call) and isinstance(m.func, ast.Attribute) and m.func.attr in SPREAD_METHODS and \
+                        norm_root(m.func.value) == x:
+                    ok = True
+            mm = {m.func.attr for m in ast.walk(t) if isinstance(m, ast.Call) and isinstance(m.func, ast.Attribute) and
+                  m.func.attr in ("max", "min") and norm_root(m.func.value) == x}
+            if mm == {"max", "min"}:
+                ok = True
+        if not ok:
+            out.append((c, x))
+    return out
+
+
+def _r8(ctx):
+    """R-C18-8: data lying exactly on a Basquin line have no scatter: shifted to one load level all cycle numbers coincide, and a
+    regression over coinciding abscissae is 0/0 (scipy returns NaN, or, when the mean is not exactly representable, an
+    arbitrary finite slope: TN = 3e-62 was observed).  Every regression of the analysis must therefore be preceded, in the same
+    function or in every caller of it, by a test of the spread of its regressor (np.ptp(x) == 0, len(x.unique()) < 2,
+    x.max() == x.min())."""
+    prog = ctx.prog
+    ctx.rule("R-C18-8", floor=2, what="every regression is preceded by a test of the spread of its regressor (exact data: zero spread)")
+    ex = ast.parse("def f(self, o, p):\n    x = np.log10(o)\n    if np.ptp(x) == 0.0:\n        return np.inf\n"
+                   "    return stats.linregress(x, p)[0]\n"
+                   "def g(self, o, p):\n    return stats.linregress(np.log10(o), p)[0]\n")
+    if unguarded_regressions(ex.body[0]) or len(unguarded_regressions(ex.body[1])) != 1:
+        raise AnalysisError("R-C18-8 built-in example not matched")
+    n = 0
+    for key, fi in sorted(prog.functions.items()):
+        if fi.module.name not in MODS or fi.parent is not None:
+            continue
+        regs = [c for c in calls_in(fi.node) if (call_name(c) or "").endswith("linregress")]
+        if not regs:
+            continue
+        bad = unguarded_regressions(fi.node)
+        for c in regs:
+            n += 1
+            hit = [x for c_, x in bad if c_ is c]
+            if not hit:
+                ctx.holds(fi, c, "%s: the regressor of %s is tested for zero spread in the function" % (fi.name, norm_text(c)[:60]))
+                continue
+            # guarded by the callers: every method of the class that (transitively, one level) calls fi tests the spread of
+            # the same column before
+            col = hit[0].split(".")[-1]
+            callers = [g for g in prog.functions.values() if g.cls is fi.cls and g is not fi and g.cls is not None and
+                       any(isinstance(k.func, ast.Attribute) and k.func.attr == fi.name for k in calls_in(g.node))]
+            entry = []
+            for g in callers:
+                up = [h for h in prog.functions.values() if h.cls is fi.cls and h is not g and
+                      any(isinstance(k.func, ast.Attribute) and k.func.attr == g.name for k in calls_in(h.node))]
+                entry.extend(up or [g])
+            def tests_spread(g):
+                for t in ast.walk(g.node):
+                    if isinstance(t, ast.Compare):
+                        for m in ast.walk(t):
+                            if isinstance(m, ast.Call) and isinstance(m.func, ast.Attribute) and m.func.attr in SPREAD_METHODS and \
+                                    isinstance(m.func.value, ast.Attribute) and m.func.value.attr == col:
+                                return True
+                return False
+            if entry and all(tests_spread(g) for g in entry):
+                ctx.holds(fi, c, "%s: the spread of .%s is tested by every entry point that reaches the regression (%s)" %
+                          (fi.name, col, ", ".join(sorted({g.name for g in entry}))))
+            else:
+                ctx.violated(fi, c, "%s: %s regresses on %s without a test of its spread: for data that lie exactly on the Basquin "
+                             "line all abscissae coincide and the slope is 0/0 - NaN or an arbitrary number - so the reported "
+                             "scatter is not 1" % (fi.name, norm_text(c)[:70], hit[0]), text="unguarded regression " + fi.name)
+    if n < 2:
+        raise AnalysisError("regressions of the Woehler analysis not found")
 
 
 def _r7(ctx):
@@ -567,6 +668,27 @@ PB = "src/pylife/materialdata/woehler/probit.py"
 
 def variants():
     out = []
+
+    def no_spread_test(tree):
+        f = find_func(tree, "ProbabilityFit.__init__")
+        for i_, st in enumerate(f.body):
+            if isinstance(st, ast.If) and any(isinstance(c_, ast.Call) and (call_name(c_) or "").endswith("linregress")
+                                               for c_ in ast.walk(st)):
+                reg = [x for x in ast.walk(st) if isinstance(x, ast.Assign) and isinstance(x.value, ast.Call) and
+                       (call_name(x.value) or "").endswith("linregress")]
+                f.body[i_:i_ + 1] = reg[:1]
+                return True
+        return False
+    out.append(witness("probability fit regresses without a spread test", "src/pylife/utils/probability_data.py", no_spread_test, "R-C18-8"))
+
+    def spread_by_minmax(tree):
+        f = find_func(tree, "ProbabilityFit.__init__")
+        for st in ast.walk(f):
+            if isinstance(st, ast.If) and isinstance(st.test, ast.Compare) and "ptp" in ast.unparse(st.test):
+                st.test = parse_expr("lg_occurrences.max() == lg_occurrences.min()")
+                return True
+        return False
+    out.append(twin("spread test written as max == min", "src/pylife/utils/probability_data.py", spread_by_minmax))
 
     def nd_threshold(tree):
         f = find_func(tree, "Likelihood.likelihood_finite")
